@@ -85,6 +85,9 @@ func (c *tcpConsumer) Consume(p Pack) {
 		defer buffers.Put(buf)
 
 		p2.Write(buf, c.transport.Channels[:])
+		if buf.Len() == 0 { // 该通道未订阅(未 SETUP)：没有内容，不能发一个空的 WebSocket 消息
+			return
+		}
 
 		c.lockW.Lock()
 		_, err = c.wsconn.Write(buf.Bytes())
